@@ -118,6 +118,14 @@ PROPS["C07"] = {
              "distinct = distinct configurations; all count as non-trivial"),
     "trusted_base": PKG_TB + ["translators/nondet.go: syntactic scan for clock / host / process / environment / CPU-count / randomness reads and map iterations (map-typed expressions recognised through declarations, not through type checking)"], "assumptions": [],
 }
+PROPS["C10"] = {
+    "level": "proof", "harness": "C10", "driver": "C10", "shrink_field": None, "exhaustive": False,
+    "rule": ("cases = generated payloads/metadata (incl. deb compressions gzip/xz/zstd/none) x signing variants: deb debsign and dpkg-sig with armored/binary, protected/unprotected, subkey-only and key-id-selected keys and every signature type; rpm with the same key kinds; apk with PKCS#1, encrypted PEM and PKCS#8 keys and given/derived key names; "
+             "recording callbacks for deb (both methods), rpm and apk; failing callbacks, wrong passphrases and an invalid signature type. Every signature is taken out of the package by the harness's own decoders and verified over the bytes taken from the package as stored - "
+             "with go-crypto / crypto/rsa and independently with gpg --verify when gpg is installed; dpkg-sig manifests are compared line by line with the stored members; callbacks' bytes with the verifier's bytes; errors with errors.As / errors.Is. "
+             "distinct = distinct (configuration, variant); all count as non-trivial"),
+    "trusted_base": PKG_TB + ["ProtonMail/go-crypto (openpgp, clearsign), crypto/rsa and the gpg binary as verifiers; the private and public test keys under internal/sign/testdata"], "assumptions": [],
+}
 PROPS["C11"] = {
     "level": "proof", "harness": "C11", "driver": "C11", "shrink_field": "ops", "exhaustive": False,
     "rule": ("cases = histories of {validate, file-name(f), package(f)} on ONE parsed configuration: every ordered pair (a, b, a) of the 11 operations (121; quick: a seeded third), all 120 orders of the five packagings (quick: a seeded eighth), "
